@@ -124,8 +124,12 @@ func encodeTop(vc *VC, fn *ssa.Function, d *Decl) []inputVar {
 	st := vc.initState()
 	fr.entry = st
 	var inputs []inputVar
-	for _, p := range fn.Params {
-		c := vc.declare("|"+p.Name()+"|", vc.sortOf(p.Type()))
+	for pi, p := range fn.Params {
+		pname := p.Name()
+		if pname == "_" || pname == "" {
+			pname = fmt.Sprintf("$arg%d", pi)
+		}
+		c := vc.declare("|"+pname+"|", vc.sortOf(p.Type()))
 		fr.vals[p] = c
 		for _, f := range fr.typeFacts(st, p.Type(), c, true) {
 			vc.assume(f)
